@@ -6,6 +6,7 @@ package fbb
 
 import (
 	"bytes"
+	"unicode/utf8"
 
 	"github.com/paulrosania/go-charset/charset"
 	_ "github.com/paulrosania/go-charset/data"
@@ -16,21 +17,24 @@ import (
 // CRLF line break is enforced.
 // Line break are inserted if a line is longer than 1000 characters (including CRLF).
 func StringToBody(str, encoding string) ([]byte, error) {
-	wrapped := wrapLines([]byte(str))
-
 	translator, err := charset.TranslatorTo(encoding)
 	if err != nil {
-		return wrapped, err
+		return wrapLines([]byte(str)), err
 	}
 
-	_, translated, err := translator.Translate(wrapped, true)
-	return translated, err
+	// Translate before wrapping: the line length limit applies to the bytes of the
+	// target encoding, and a multi-byte input character must not be split in two.
+	_, translated, err := translator.Translate([]byte(str), true)
+	return wrapLines(translated), err
 }
 
 // wrapLines enforces CRLF line breaks and inserts line breaks so that no line is
 // longer than 1000 bytes (including CRLF).
 func wrapLines(data []byte) []byte {
 	out := bytes.NewBuffer(make([]byte, 0, len(data)+len(data)/64+2))
+
+	// Don't break in the middle of a multi-byte character if the data is UTF-8.
+	isUTF8 := utf8.Valid(data)
 
 	for len(data) > 0 {
 		line := data
@@ -44,6 +48,9 @@ func wrapLines(data []byte) []byte {
 		for {
 			// Lines can not be longer that 1000 characters including CRLF.
 			n := min(len(line), 1000-2)
+			for isUTF8 && n < len(line) && !utf8.RuneStart(line[n]) {
+				n--
+			}
 
 			out.Write(line[:n])
 			out.WriteString("\r\n")
